@@ -33,6 +33,18 @@ Local Ltac same :=
              so the conversion below stays cheap) *)
           rewrite ?Bool.if_negb; cbv beta iota zeta delta [andb orb];
           rewrite ?Bool.if_negb; timeout 20 reflexivity
+        | (* ... up to De Morgan in the final comparison and 8*hm written as a shift: decide the
+             atomic comparisons of the conditions case by case *)
+          rewrite ?Z.shiftl_mul_pow2 by lia; rewrite ?(Z.mul_comm _ (2 ^ 3));
+          change (2 ^ 3) with 8;
+          timeout 30 (repeat match goal with
+                 | |- context [if ?c then _ else _] =>
+                     match c with
+                     | context [Z.eqb ?a ?b] => destruct (Z.eqb a b)
+                     | context [Z.ltb ?a ?b] => destruct (Z.ltb a b)
+                     end; cbv beta iota zeta delta [andb orb negb]
+                 end);
+          timeout 20 reflexivity
         | fail 1 "generated code and hand model differ" ].
 
 (* the translator emits every spelling of "a >= b" (Cmp >= 0, Cmp != -1, !(Cmp < 0)) as
